@@ -32,6 +32,7 @@ type c04EngReq struct {
 	Arg    int       `json:"arg,omitempty"`
 	Shape  string    `json:"shape,omitempty"`
 	G      int       `json:"g,omitempty"` // addressed group
+	Up     bool      `json:"up,omitempty"`    // Upgrade: websocket (the timeout handler of the chain special-cases it)
 	Sp     int       `json:"sp,omitempty"`    // spelling of the route path on the request line (c04Respell), 0 = canonical
 	Abort  bool      `json:"abort,omitempty"` // the body reader fails after At bytes
 	At     int       `json:"at,omitempty"`
@@ -167,6 +168,7 @@ func c04EngInterp(t *testing.T, c c04EngCase) (v kit.Verdict) {
 			}
 			if !sr.ReqURI {
 				sr.Path = sent
+				sr.PLen = 0 // the request line must keep addressing the route
 			}
 			wire := c04Sign(sr, ts)
 			if sr.ReqURI {
@@ -194,6 +196,11 @@ func c04EngInterp(t *testing.T, c c04EngCase) (v kit.Verdict) {
 				}
 			}
 			req := c04HTTPRequest(wire)
+			if rq.Up {
+				req.Header.Set("Upgrade", "websocket")
+				req.Header.Set("Connection", "Upgrade")
+				classes["header:upgrade-websocket"] = true
+			}
 
 			// JWT gate
 			jwtExp := c04Accept
@@ -391,6 +398,7 @@ func c04EngGen(rt *rapid.T) c04EngCase {
 		rq := c04EngReq{Adv: rapid.SampledFrom([]int{0, 0, 1, 2, 3600, 90000}).Draw(rt, "adv")}
 		rq.G = rapid.IntRange(0, ng-1).Draw(rt, "group")
 		rq.Sp = rapid.SampledFrom([]int{0, 0, 0, 1, 2, 3, 4, 5}).Draw(rt, "spelling")
+		rq.Up = rapid.IntRange(0, 7).Draw(rt, "upgrade") == 3
 		g := c.Groups[rq.G]
 		rq.Req = c04GenSigReq(rt)
 		if g.Jwt || rapid.IntRange(0, 3).Draw(rt, "tok?") == 0 {
